@@ -316,7 +316,7 @@ def corr_parser(ck):
     if ck.tier == 'quick':
         alpha = alpha[:14]
     L = 4 if ck.tier == 'quick' else 5
-    extra = 'Definition ta : list token := ' + clist(ctoken(f()) for f in alpha) + '.'
+    extra = 'Import ListNotations. Open Scope Z_scope. Definition ta : list token := ' + clist(ctoken(f()) for f in alpha) + '.'
     bt = Batches(ck, 'c03parse', extra=extra)
     n = 0
     prefixes = [()]
@@ -349,13 +349,29 @@ def corr_parser(ck):
 
 
 def run(ck):
+    import os, time
+    only = os.environ.get('C03_STEPS')          # development aid: comma separated step names; the real check runs all
+    only = set(only.split(',')) if only else None
     ck.trusted += ['translator tools/gen_tokens.py (Python ast: dict displays, regex pattern texts, character classes)',
                    'translator tools/gen_elements.py (symbols and isotope keys)',
                    'correspondence runner harness/checks/C03.py + harness/coqcases.py', 'CachedMethods shim harness/boot.py',
                    'CPython 3.12.1 (re, str.split, str.isnumeric, int)', 'RDKit 2026.3 (search only)']
-    proved = common.standard_proof_steps(ck, translators=['tokens', 'elements'])
+    timings = {}
+    t = time.time()
+    proved = True
+    if only is None or 'proof' in only:
+        proved = common.standard_proof_steps(ck, translators=['tokens', 'elements'])
+    timings['proof'] = round(time.time() - t, 1)
     tied = True
-    for f in (corr_tokenize, corr_atom, corr_parser):
+    for name, f in STEPS:
+        if only is not None and name not in only:
+            continue
+        t = time.time()
         tied = f(ck) and tied
+        timings[name] = round(time.time() - t, 1)
+    ck.extra['timings_s'] = timings
     ck.extra['proved'] = proved
     ck.extra['tied'] = tied
+
+
+STEPS = [('tok', corr_tokenize), ('atom', corr_atom), ('parse', corr_parser)]
